@@ -490,6 +490,6 @@ def check(case):
 
 
 SUBCHECKS = [
-    Sub("pool", check, strategy=lambda tier: case_strategy(), quick=800, thorough=12000,
+    Sub("pool", check, strategy=lambda tier: case_strategy(), quick=3200, thorough=160000,
         min_share={"source:system": 0.2, "source:alignment": 0.2, "nontrivial": 0.1}),
 ]
